@@ -134,7 +134,50 @@ def remove_nested_observers(saved):
         mod.read_sunvox_file = orig
 
 
-def one_load(api, tid, data, flag0, kind, fail_at=None, open_fails=None, pipe=False, warn_error=False):
+def strict_use_event(loaded):
+    """The out-of-range controller values found in what was just loaded, assigned (attribute and constructor keyword) to FRESH
+    stand-alone objects of the same types under the setting as it is now; counts the assignments that were accepted."""
+    from rv.controller import Range
+    from rv.errors import ControllerValueError
+    mods, stack = [], [loaded]
+    while stack:
+        o = stack.pop()
+        if hasattr(o, "modules"):
+            stack += [m for m in o.modules if m is not None]
+        elif hasattr(o, "module") and not hasattr(o, "controllers"):
+            stack.append(o.module)
+        elif o is not None:
+            mods.append(o)
+            if hasattr(o, "project") and o.mtype == "MetaModule":
+                stack.append(o.project)
+    probes = accepted = 0
+    for mod in mods[:40]:
+        for name, c in type(mod).controllers.items():
+            if name.startswith("user_defined") or (mod.mtype == "SpectraVoice" and name.startswith("h_")):
+                continue
+            try:
+                v = mod.controller_values.get(name)
+                t = c.instance_value_type(type(mod)())
+            except Exception:
+                continue
+            if not isinstance(t, Range) or type(t) is not Range or not isinstance(v, int) or isinstance(v, bool) or t.min <= v <= t.max:
+                continue
+            for how in ("attr", "kw"):
+                probes += 1
+                try:
+                    if how == "attr":
+                        setattr(type(mod)(), name, v)
+                    else:
+                        type(mod)(**{name: v})
+                    accepted += 1
+                except ControllerValueError:
+                    pass
+                except Exception:
+                    pass
+    return {"op": "strict_use", "probes": probes, "accepted": accepted}
+
+
+def one_load(api, tid, data, flag0, kind, fail_at=None, open_fails=None, pipe=False, warn_error=False, probe_strict=False):
     """open_fails: None | "missing" | "directory" | "denied" - the library's own open of the path fails before any read."""
     import rv.errors
     log = []
@@ -169,7 +212,7 @@ def one_load(api, tid, data, flag0, kind, fail_at=None, open_fails=None, pipe=Fa
             with warnings.catch_warnings():
                 if warn_error:                  # the caller's process turns warnings into errors (python -W error, pytest filterwarnings)
                     warnings.simplefilter("error")
-                api.read_sunvox_file(arg)
+                st["loaded"] = api.read_sunvox_file(arg)
             end = {"op": "return", "exc": ""}
         except BaseException as e:
             end = {"op": "raise", "exc": type(e).__name__}
@@ -179,6 +222,8 @@ def one_load(api, tid, data, flag0, kind, fail_at=None, open_fails=None, pipe=Fa
         end["flag"] = bool(rv.errors.RAISE_CONTROLLER_VALUE_ERRORS)         # (strict or lenient: the truth value is what matters)
         end["closed"] = bool(st["stream"].closed) if "stream" in st else True
         log.append(end)
+        if probe_strict and st.get("loaded") is not None:
+            log.append(strict_use_event(st["loaded"]))
     finally:
         pathlib.Path.open = orig_open
         remove_nested_observers(saved)
@@ -247,7 +292,7 @@ def run(ctx):
 
     def add(name, data, flag0, kind, fail_at=None, pipe=False, warn_error=False):
         t = one_load(api, "%s|%s%s%s|%s|%s|%d" % (name, kind, "-pipe" if pipe else "", "-Werror" if warn_error else "", flag0, fail_at, len(traces)),
-                     data, flag0, kind, fail_at, pipe=pipe, warn_error=warn_error)
+                     data, flag0, kind, fail_at, pipe=pipe, warn_error=warn_error, probe_strict=name.endswith(":beyond-range"))
         traces.append(t)
         raised = t["events"][-1]["op"] == "raise"
         nested = any(e["op"] == "nested_enter" for e in t["events"])
